@@ -606,7 +606,6 @@ func respell(text, zd, zr string) string {
 	return reDefID.ReplaceAllString(text, "!"+zd+"${1} = ")
 }
 
-
 // --- rows from the debug-info families of spec/Modules.tla ----------------------------------
 
 // modulesDIRows turns every debug-info configuration TLC enumerates from Modules.tla (each alternative of each
